@@ -241,9 +241,10 @@ Lemma classify_master env mrs en ns : ns_is_master ns = true -> classify env mrs
 Proof. intros H. unfold classify. destruct (opt_lag ns); [rewrite H|]; reflexivity. Qed.
 Lemma classify_converged env mrs en ns lag : ns_is_master ns = false -> opt_lag ns = Some lag ->
   (lag < ov_low env \/ (en = false /\ lag < ov_high env)) -> ov_low env <= ov_high env ->
-  classify env mrs en (Some ns) = OcOptimized.
+  classify env mrs en (Some ns) = OcOptimized \/ classify env mrs en (Some ns) = OcMalf.
 Proof.
   intros Hm Hl Hc Hlh. unfold classify. rewrite Hl, Hm.
+  destruct (ns_repl_settings ns) as [rs|]; [left|right; reflexivity].
   destruct Hc as [Hc|[-> Hc]].
   - assert (lag <? ov_low env = true) as -> by (apply Z.ltb_lt; exact Hc).
     assert (lag <? ov_high env = true) as -> by (apply Z.ltb_lt; lia). destruct en; reflexivity.
@@ -253,8 +254,8 @@ Lemma classify_disabled env mrs en ons : classify env mrs en ons = OcDisabled ->
   en = false /\ exists ns rs, ons = Some ns /\ ns_repl_settings ns = Some rs /\ rs_eqb rs mrs = true.
 Proof.
   unfold classify. destruct ons as [ns|]; [|discriminate]. destruct (opt_lag ns); [|discriminate].
-  destruct (ns_is_master ns); [discriminate|]. destruct (_ || _); [discriminate|]. destruct en; [discriminate|].
-  destruct (ns_repl_settings ns) as [rs|] eqn:Ers; [|discriminate]. destruct (rs_eqb rs mrs) eqn:E; [|discriminate].
+  destruct (ns_is_master ns); [discriminate|]. destruct (ns_repl_settings ns) as [rs|] eqn:Ers; [|discriminate].
+  destruct (_ || _); [discriminate|]. destruct en; [discriminate|]. destruct (rs_eqb rs mrs) eqn:E; [|discriminate].
   intros _. split; [reflexivity|]. exists ns, rs. auto.
 Qed.
 
@@ -264,7 +265,7 @@ Definition readcall (c : call) : Prop :=
 Definition observed (tr : trace) (h : host) (en : bool) : Prop :=
   exists e, In e tr /\ ev_call e = DcsGet (POptNode h) /\ ev_resp e = RVal (VOpt en).
 Definition class_list (p : opt_plan) (c : opt_class) : list host :=
-  match c with OcMalf => op_malf p | OcOptimized => op_optimized p | OcOptimizing => op_optimizing p | OcDisabled => op_disabled p | OcPanic => [] end.
+  match c with OcMalf => op_malf p | OcOptimized => op_optimized p | OcOptimizing => op_optimizing p | OcDisabled => op_disabled p end.
 Definition plan_incl (p q : opt_plan) : Prop := forall c, incl (class_list p c) (class_list q c).
 
 Lemma plan_incl_refl p : plan_incl p p. Proof. intros c x H; exact H. Qed.
@@ -272,8 +273,8 @@ Lemma plan_incl_trans p q r : plan_incl p q -> plan_incl q r -> plan_incl p r.
 Proof. intros H1 H2 c x H. apply H2, H1, H. Qed.
 Lemma plan_add_incl p h c : plan_incl p (plan_add p h c).
 Proof. intros c' x H. destruct c, c'; cbn in *; auto; apply in_or_app; left; exact H. Qed.
-Lemma plan_add_in p h c : c <> OcPanic -> In h (class_list (plan_add p h c) c).
-Proof. intros Hc. destruct c; cbn; try (apply in_or_app; right; left; reflexivity). contradiction. Qed.
+Lemma plan_add_in p h c : In h (class_list (plan_add p h c) c).
+Proof. destruct c; cbn; apply in_or_app; right; left; reflexivity. Qed.
 
 Lemma read_states_runs env mrs : forall hosts p0 tr o, runs (read_states env mrs hosts p0) tr o ->
   Forall (fun e => readcall (ev_call e)) tr /\
@@ -300,22 +301,12 @@ Proof.
         try (match type of H with runs (Ret (RdErr ?x)) _ _ => apply (FIN (RdErr x)); [exact H|discriminate] end).
       apply SKIP; [exact H|]. intros en; discriminate.
     + (* RVal *) destruct v; cbn [bind] in H; try (apply (FIN (RdErr EOther)); [exact H|discriminate]).
-      assert (GOOD : forall c, c <> OcPanic -> classify env mrs enabled (assoc h (ov_states env)) = c ->
-                runs (read_states env mrs rest (plan_add p0 h c)) tr' o ->
-                Forall (fun e0 => readcall (ev_call e0)) (e :: tr') /\ forall p, o = Done (RdOk p) -> plan_incl p0 p /\
-                  forall h0 en, observed (e :: tr') h0 en -> In h0 (class_list p (classify env mrs en (assoc h0 (ov_states env))))).
-      { intros c Hc Ecl Hr. destruct (IH _ _ _ Hr) as [F K]. split; [constructor; assumption|]. intros p E. destruct (K p E) as [K1 K2].
-        split; [eapply plan_incl_trans; [apply plan_add_incl|exact K1]|].
-        intros h0 en (e0 & [<-|Hin] & C0 & R0).
-        - rewrite Ec in C0. inversion C0; subst h0. rewrite Er in R0. inversion R0; subst en. rewrite Ecl.
-          apply (K1 c h). apply plan_add_in. exact Hc.
-        - apply K2. exists e0. auto. }
-      destruct (classify env mrs enabled (assoc h (ov_states env))) eqn:Ecl.
-      * apply (GOOD OcMalf); [discriminate|reflexivity|exact H].
-      * apply (GOOD OcOptimized); [discriminate|reflexivity|exact H].
-      * apply (GOOD OcOptimizing); [discriminate|reflexivity|exact H].
-      * apply (GOOD OcDisabled); [discriminate|reflexivity|exact H].
-      * cbn in H. destruct H as [-> ->]. split; [constructor; [exact RC|constructor]|]. intros p E. discriminate E.
+      destruct (IH _ _ _ H) as [F K]. split; [constructor; assumption|]. intros p E. destruct (K p E) as [K1 K2].
+      split; [eapply plan_incl_trans; [apply plan_add_incl|exact K1]|].
+      intros h0 en (e0 & [<-|Hin] & C0 & R0).
+      * rewrite Ec in C0. inversion C0; subst h0. rewrite Er in R0. inversion R0; subst en.
+        apply (K1 _ h). apply plan_add_in.
+      * apply K2. exists e0. auto.
 Qed.
 
 (* ---------------------------------------------------------------- the whole sync *)
@@ -335,10 +326,9 @@ Proof.
   { intros x Hx. cbn in Hx. destruct Hx as [-> ->]. split; [constructor; [exact RC|constructor]|discriminate]. }
   destruct (ev_resp e) as [er| | | | | | | | | | | |l| |]; cbn [bind snd fst] in H; try (left; eapply ERR; exact H).
   destruct (runs_bind_inv _ _ _ _ H) as [(t1 & t2 & a & R1 & R2 & ->)|(s & R1 & ->)].
-  - destruct (read_states_runs env mrs _ _ _ _ R1) as [F K]. destruct a as [p|x|].
+  - destruct (read_states_runs env mrs _ _ _ _ R1) as [F K]. destruct a as [p|x].
     + right. exists p, (e :: t1), t2. split; [reflexivity|]. split; [constructor; assumption|]. split; [|exact R2].
       intros h en Ho. apply (proj2 (K p eq_refl)). eapply observed_cons_other; [|exact Ho]. intros q. rewrite Ec. discriminate.
-    + left. cbn in R2. destruct R2 as [-> ->]. rewrite app_nil_r. split; [constructor; assumption|discriminate].
     + left. cbn in R2. destruct R2 as [-> ->]. rewrite app_nil_r. split; [constructor; assumption|discriminate].
   - left. destruct (read_states_runs env mrs _ _ _ _ R1) as [F K]. split; [constructor; assumption|discriminate].
 Qed.
